@@ -603,9 +603,9 @@ func (p *Program) canon(fn *Func, x ast.Expr, depth int) string {
 				// field of a single-assignment local initialised with a composite literal: the field's value
 				if id, ok := ast.Unparen(v.X).(*ast.Ident); ok {
 					if obj := info.Uses[id]; obj != nil && !fn.Defs().fieldMut[obj] {
-						if lit := p.compositeOf(fn, id); lit != nil {
+						if lit, lfn := p.compositeOfIn(fn, id); lit != nil {
 							if fv := litField(lit, sel.Obj().Name()); fv != nil {
-								return p.canon(fn, fv, depth+1)
+								return p.canon(lfn, fv, depth+1) // (in the function that wrote the literal: a builder helper's parameters are bound there)
 							}
 						}
 					}
@@ -618,11 +618,17 @@ func (p *Program) canon(fn *Func, x ast.Expr, depth int) string {
 							if u, isU := root.(*ast.UnaryExpr); isU && u.Op == token.AND {
 								root = ast.Unparen(u.X)
 							}
+							if cl, isCL := root.(*ast.CompositeLit); isCL {
+								// the literal itself was handed in: lookup(componentKey{typeID: t, entityID: e})
+								if fv := litField(cl, sel.Obj().Name()); fv != nil {
+									return p.canon(bfn, fv, depth+1)
+								}
+							}
 							if rid, isID := root.(*ast.Ident); isID {
 								if robj := bfn.Info().Uses[rid]; robj != nil && !bfn.Defs().fieldMut[robj] {
-									if lit := p.compositeOf(bfn, rid); lit != nil {
+									if lit, lfn := p.compositeOfIn(bfn, rid); lit != nil {
 										if fv := litField(lit, sel.Obj().Name()); fv != nil {
-											return p.canon(bfn, fv, depth+1)
+											return p.canon(lfn, fv, depth+1)
 										}
 									}
 								}
